@@ -670,7 +670,8 @@ impl TypeChecker {
         };
 
         if diverges {
-            todo!("make a pretty error")
+            // The examinee never produces a value, so no arm can ever run
+            return Err(self.error_unreachable_expression(mat));
         }
 
         let Type::Name(type_name) = &t_expr else {
@@ -1298,8 +1299,8 @@ impl TypeChecker {
                 }))
             }
             DeclarationKind::Enum(Some((ty, variant))) => {
-                if let Some(_field) = idents.next() {
-                    todo!("make a nice error for variant cannot have field")
+                if let Some(field) = idents.next() {
+                    return Err(self.error_no_field_on_type(ty, field));
                 }
                 Ok(ResolvedPath::EnumConstructor {
                     ty: ty.clone(),
